@@ -9,9 +9,12 @@ import time
 
 VERIF = os.path.dirname(os.path.dirname(os.path.abspath(__file__)))
 REPO = os.environ.get("VERIF_REPO", "/repo")
-BUILD = os.path.join(VERIF, "build")
-EVIDENCE = os.path.join(VERIF, "evidence")
-REPLAYS = os.path.join(VERIF, "replays")
+# The registered commands use the defaults (/repo, /verif/build, /verif/evidence).  The overrides
+# exist so that seeded changes can be examined in scratch worktrees without touching /repo.
+BUILD = os.environ.get("VERIF_BUILD", os.path.join(VERIF, "build"))
+_OUT = os.environ.get("VERIF_OUT", VERIF)
+EVIDENCE = os.path.join(_OUT, "evidence")
+REPLAYS = os.path.join(_OUT, "replays")
 HARNESS = os.path.join(VERIF, "harness", "inproc.rs")
 KNOWN = os.path.join(VERIF, "known_findings.json")
 
@@ -20,6 +23,24 @@ EXIT_OK, EXIT_VIOLATION, EXIT_MACHINERY = 0, 1, 2
 
 class MachineryError(Exception):
     pass
+
+
+def materialize(src_dir, name):
+    """Path of a support crate whose manifest points at REPO.  For the default /repo the committed
+    directory is used as is; for a scratch repository a copy with the path rewritten is made."""
+    if REPO == "/repo":
+        return src_dir
+    import shutil
+    dst = os.path.join(BUILD, "support", name)
+    if os.path.exists(dst):
+        shutil.rmtree(dst)
+    shutil.copytree(src_dir, dst, ignore=shutil.ignore_patterns("target", "Cargo.lock"))
+    mf = os.path.join(dst, "Cargo.toml")
+    with open(mf) as f:
+        t = f.read()
+    with open(mf, "w") as f:
+        f.write(t.replace('"/repo/sylvia"', '"%s/sylvia"' % REPO))
+    return dst
 
 
 def log(*a):
